@@ -184,6 +184,7 @@ class Monitor:
         self.worlds = {}
         self.ref = {}
         self.failing = []          # (key, what, case)
+        self.kept = []             # (routine, variant, returned object, canonical form at return) of this session
         self.mutated = {}          # routine -> [case]
         self.raises = {}           # routine/variant -> message
         self.exercised = {}        # routine -> number of normal returns
@@ -266,6 +267,17 @@ class Monitor:
             files = [(os.path.relpath(f, W.tmp).replace(f"out{self.nout}", "out"), file_sha(f)) for f, _, _, _ in call.files] + \
                     [(os.path.relpath(f, W.tmp).replace(f"out{self.nout}", "out"), file_sha(f)) for f in call.aux]
         sig = (status.split(":")[0] if status != "ok" else "ok", P.canon(res), tuple(files))
+        # --- values handed out earlier in this session are still what they were when they were returned
+        for (pn, pi, pres, pcanon) in self.kept:
+            if P.canon(pres) != pcanon:
+                self.fail(f"C18:result-rewritten:{pn}",
+                          f"the value returned earlier by {pn} was changed behind the caller's back by a later call of {name} "
+                          f"(a returned array aliases state that is rewritten)",
+                          dict(case, kind="kept", producer=[pn, pi], history=[list(h) for h in history]))
+        self.kept = [k for k in self.kept if P.canon(k[2]) == k[3]]
+        if status == "ok" and res is not None:
+            self.kept.append((name, idx, res, sig[1]))
+            self.kept = self.kept[-40:]
         key = (json.dumps(spec, sort_keys=True), name, idx)
         if key in self.ref:
             self.repeats_compared += 1
@@ -309,6 +321,7 @@ class Monitor:
         """one session on the shared world `wi`; analysis objects are rebuilt lazily inside the session, so object state
         left by one session cannot hide a history dependence in the next"""
         self.world(wi).objs.clear()
+        self.kept = []
         hist = []
         for (n, i) in order:
             self.call(wi, n, i, hist)
